@@ -570,6 +570,31 @@ class Resolver:
         return self.direct(func).calls
 
 
+def helper_closure(prog, cls, allowed):
+    """`allowed` (qualnames) plus every method of `cls` that is called only from functions
+    already in the set: a private helper inherits the permissions of its callers."""
+    res = resolver(prog)
+    allowed = set(allowed)
+    callers = {}
+    for f in prog.functions.values():
+        for node, callees, status in res.direct(f).calls:
+            for c in callees:
+                if c.cls is cls and status == 'typed' and c is not f:
+                    callers.setdefault(c.qualname, set()).add(f.qualname)
+    changed = True
+    while changed:
+        changed = False
+        for name, m in cls.methods.items():
+            q = m.qualname
+            if q in allowed or m.kind != 'method':
+                continue
+            cs = callers.get(q, set())
+            if cs and cs <= allowed:
+                allowed.add(q)
+                changed = True
+    return allowed, callers
+
+
 _RES = {}
 
 
